@@ -16,6 +16,9 @@ CLAIMED = {
  'C04': ('exploration', 'property-based testing (proptest) with a deadlock oracle on controlled schedules (SIM)',
          'Generated graphs x schedules; liveness turned into safety: a state with nothing deliverable, no script running and unexecuted targets is a deadlock.',
          'SIM does not exercise queue capacities (relay unbounded there).', 'DESIGN.md 4/C04'),
+ 'C05': ('fault_enumeration', 'fault injection driven by proptest generators (crash points via guarded hooks, signals, exit codes, partial writes) plus mutation-based fuzzing of real state files with an independent-decoder differential; exhaustive offset enumeration in the thorough tier',
+         'Every fault class of the build cycle is injected against the real binary and the next invocation is judged; write offsets / truncation offsets / one bit flip per byte are enumerated completely in the thorough tier (flagged exhaustive for those sub-spaces only).',
+         'Partial write emulated as prefix + abort; RLIMIT_AS 4 GiB on every child.', 'DESIGN.md 4/C05'),
  'C06': ('exploration', 'property-based testing (proptest) of watch-mode histories against a version-capture reference model (SIM)',
          'Generated graphs x schedules x file-change notices; at final quiescence everything not blocked by a failure must be up to date in the model.',
          'Incremental step replaced by the model in SIM.', 'DESIGN.md 4/C06'),
@@ -49,11 +52,20 @@ CLAIMED = {
  'C19': ('exploration', 'property-based testing (proptest): generated project sets with overlapping target names; name-set equality, spelling and bare-reference oracles on the real loader/resolver',
          'Generated project sets x requested spellings x references.',
          'In-crate loader and resolver.', 'DESIGN.md 4/C19'),
+ 'C16': ('exploration', 'property-based testing (proptest) of operation sequences under a real TargetWatcher (inotify), barrier-ordered expectations, thread-panic hook, survival probe',
+         'Generated file-name classes x operation sequences beneath watched directories.',
+         'Barrier events through hook H7; groups always have an extension filter.', 'DESIGN.md 4/C16'),
+ 'C18': ('exploration', 'model-based (stateful) property testing: generated invocation histories against a per-target recorded-snapshot reference model, real binary',
+         'Generated histories over entry projects, spellings, relative/absolute project paths, --clean and failures.',
+         'Targets in flight during a failing invocation are "unknown" until re-observed.', 'DESIGN.md 4/C18'),
+ 'C20': ('exploration', 'metamorphic property testing (proptest): aggregate vs its dependencies, on controlled schedules (SIM) and through the real binary (BB)',
+         'Pairs of runs compared on sets and verdicts.',
+         'With a failing member only the verdict is compared.', 'DESIGN.md 4/C20'),
  'C17': ('exploration', 'property-based testing (proptest) with withheld completions (SIM): ready => started at message-quiescent points',
          'Generated graphs x schedules in which scripts stay running as long as possible.',
          'One-shot runs without failures.', 'DESIGN.md 4/C17'),
 }
-ENGINE = {'C02':'INC','C03':'INC','C09':'INC','C13':'INC','C14':'INC','C15':'INC','C19':'INC','C10':'BB','C12':'BB','C04':'SIM+BB','C01':'SIM+BB','C07':'SIM+BB','C08':'SIM+BB','C11':'SIM+BB','C17':'SIM+BB'}
+ENGINE = {'C05':'BB','C16':'INC','C18':'BB','C20':'SIM+BB','C02':'INC','C03':'INC','C09':'INC','C13':'INC','C14':'INC','C15':'INC','C19':'INC','C10':'BB','C12':'BB','C04':'SIM+BB','C01':'SIM+BB','C07':'SIM+BB','C08':'SIM+BB','C11':'SIM+BB','C17':'SIM+BB'}
 ALL = [json.loads(l)['id'] for l in open('/verif/properties.jsonl')]
 NA_REASON = 'check not built yet in this session (work in progress; to be decided with property-based testing as designed in DESIGN.md)'
 
